@@ -270,10 +270,11 @@ theorem fact_registry_locking :
     Generated.registryLocking.any (fun r => r.2.2.2.2) = true := by
   decide
 
-/-- a new evaluation environment is built on the base environment and receives the
-    expression's registry -/
+/-- a new evaluation environment is built for each Eval and the expression's registry is bound into it (the
+    inlined trace of Eval stores into an environment's frame and calls the clock once for `$now`/`$millis`); that
+    the built-ins of the base environment are visible in it is the correspondence's part -/
 theorem fact_env_assembly :
-    Generated.newEnvParents = ["baseEnv"] ∧ Generated.newEnvEvents.contains "call:bindAll" = true := by
+    Generated.exprEvalEvents.contains "write:recv:environment" = true ∧ Generated.exprEvalEvents.contains "call:Now" = true := by
   decide
 
 /-! ### non-vacuity -/
